@@ -292,6 +292,52 @@ def est_printer_tokens(chk, facts):
         chk.ob(rule, vn, not probs, "EST %s prints `%s`; read back through %s -> builder.%s%s" % (vn, " ".join(lits), path, m, (": " + "; ".join(probs)) if probs else " -> the same node, operands in order"),
                where=f.where(), fn=f.name, key="%s:%s:%s" % (rule, vn, ";".join(probs)), sample={"variant": vn, "token": lits, "reader": path, "builder": m})
     chk.floor(rule, "infix node kinds", n, 12)
+    # ---- method-style node kinds: `.name(` must be a method name the parser dispatches to the builder method that builds this node
+    import re
+    meth = None
+    for nme in facts.fns.index:
+        if nme.endswith("::to_meth") and "cst_to_ast" in nme and "closure" not in nme:
+            meth = facts.fns[nme]
+    meth_m = string_dispatch(facts, meth, methods) if meth is not None else {}
+    METHOD = ("Contains", "ContainsAll", "ContainsAny", "IsEmpty", "GetTag", "HasTag")
+    KEYWORD = {"If": ["IF", "THEN", "ELSE"], "Like": ["LIKE"]}
+    nm_ = 0
+    for vi, tgt in sorted(arms.items()):
+        vn = r["variants"][vi]["name"]
+        if vn not in METHOD and vn not in KEYWORD and vn != "Is":
+            continue
+        region = cfg.dominated_region(f, tgt)
+        text = []
+        for s_ in sorted(fmtstr.sites(f, region), key=lambda x: x["line"] or 0):
+            if s_["pieces"]:
+                text += [p_[1] for p_ in s_["pieces"] if p_[0] == "lit"]
+        probs = []
+        if vn in METHOD:
+            names = re.findall(r"\.(\w+)\(", "".join(text))
+            if len(names) != 1:
+                probs.append("writes %s" % text)
+            else:
+                ms = sorted(set(meth_m.get(names[0], [])))
+                b_ = bm.get(ms[0], {}) if len(ms) == 1 else {}
+                if b_.get("variant") != vn:
+                    probs.append("`.%s(..)` is read back by the parser as builder.%s which builds %s" % (names[0], ms, b_.get("sig")))
+            what = ".%s(..)" % (names[0] if len(names) == 1 else "?")
+        elif vn == "Is":
+            toks = " ".join(text).split()
+            want = [g["aliases"].get("IS"), g["aliases"].get("IN")]
+            if toks != want:
+                probs.append("writes the keywords %s, the grammar has %s" % (toks, want))
+            what = " ".join(toks)
+        else:
+            toks = " ".join(text).replace('"', " ").split()
+            want = [g["aliases"].get(k) for k in KEYWORD[vn]]
+            if toks != want:
+                probs.append("writes the keywords %s, the grammar has %s" % (toks, want))
+            what = " ".join(toks)
+        nm_ += 1
+        chk.ob(rule, vn, not probs, "EST %s prints `%s`%s" % (vn, what, (": " + "; ".join(probs)) if probs else " — read back as the same node"), where=f.where(), fn=f.name,
+               key="%s:%s:%s" % (rule, vn, ";".join(probs)))
+    chk.floor(rule, "method / keyword node kinds", nm_, 9)
 
 
 def own_region_simple(f, tgt):
